@@ -41,7 +41,7 @@ FILES = {
     "node/remote.py": ["C10", "C09"],
     "node/base.py": ["C10"],
     "variable.py": ["C03", "C15"],
-    "network.py": ["C10", "C17", "C03"],
+    "network.py": ["C10", "C17", "C18", "C03"],
     "nmt.py": ["C11", "C17"],
     "emcy.py": ["C16"],
     "lss.py": ["C18"],
